@@ -31,7 +31,9 @@ func run(cfg lib.Cfg) error {
 			out.Add(k)
 		}
 	}
-	r := lib.NewRNG(cfg.Seed)
+	// lib.NewRNG(seed) streams of neighbouring seeds are shifts of one another (they
+	// re-synchronise after a few cases); Fork() starts from a hashed state instead
+	r := lib.NewRNG(cfg.Seed).Fork()
 	n := 320
 	if cfg.Thorough() {
 		n = 4000
